@@ -12,7 +12,7 @@ import hashlib, json, os, re, subprocess, sys, time, shutil, glob, signal, tempf
 VERIF = os.path.dirname(os.path.dirname(os.path.abspath(__file__)))
 REPO = os.environ.get("VERIF_REPO", "/repo")
 SIM = os.path.join(VERIF, "sim")
-BUILD = os.path.join(VERIF, "build")
+BUILD = os.environ.get("VERIF_BUILD", os.path.join(VERIF, "build"))   # scratch runs against modified copies of /repo may keep their builds elsewhere
 EVID = os.environ.get("VERIF_EVID", os.path.join(VERIF, "evidence"))      # overridden when a scratch copy of the repo is checked
 REPLAYS = os.environ.get("VERIF_REPLAYS", os.path.join(VERIF, "replays"))
 KNOWN = os.path.join(VERIF, "KNOWN_FINDINGS.txt")
@@ -173,6 +173,13 @@ class Worker:
         self.last_out = time.time()
         self.cur = None
 
+    def progress_moved(self):
+        """True if the worker's progress word (case index, alternative / step counter) changed since the last look."""
+        cur = self.read_alt()
+        moved = cur != getattr(self, "last_progress", None)
+        self.last_progress = cur
+        return moved
+
     def read_alt(self):
         try:
             with open(self.prog, "rb") as f:
@@ -258,6 +265,8 @@ def run_workers(exe, variant, prop, tier, seed, ncases, budget_s, collect):
                         wk.pending.remove(idx)
                     wk.tail = []
                     wk.start()
+            elif time.time() - wk.last_out > stalled_limit / 2 and wk.progress_moved():
+                wk.last_out = time.time()   # silent, but the case is working through its alternatives / steps: alive
             elif time.time() - wk.last_out > stalled_limit:
                 idx = wk.cur
                 pi, alt = wk.read_alt()
@@ -321,6 +330,15 @@ def key_matches(key, known):
 
 
 def gate(exe, prop, tier, seed, index, alt, key, shrink=True, variant="plain"):
+    t_gate = time.time()
+    try:
+        return gate_inner(exe, prop, tier, seed, index, alt, key, shrink, variant)
+    finally:
+        if os.environ.get("VERIF_TIMING"):
+            sys.stderr.write(f"[timing] gate {variant} case {index} alt {alt} key {key} shrink={shrink}: {time.time() - t_gate:.1f}s\n")
+
+
+def gate_inner(exe, prop, tier, seed, index, alt, key, shrink=True, variant="plain"):
     os.makedirs(REPLAYS, exist_ok=True)
     out = os.path.join(REPLAYS, f"{prop}-{seed}-{index}" + (f"-a{alt}" if alt is not None and alt >= 0 else "") + ".replay")
     cmd = launcher(variant) + [exe, "gate", "--prop", prop, "--tier", tier, "--seed", str(seed), "--index", str(index), "--out", out]
@@ -339,10 +357,16 @@ def gate(exe, prop, tier, seed, index, alt, key, shrink=True, variant="plain"):
     if r.returncode == 0 and m:
         gkey, path, detail = m.group(1), m.group(2), m.group(4)
         # fresh-process replay must reproduce the same key
-        r2 = subprocess.run(launcher(variant) + [exe, "replay", path], stdout=subprocess.PIPE, stderr=subprocess.STDOUT, env=env, timeout=600)
-        t2 = r2.stdout.decode(errors="replace")
+        # (a violation whose trace differs from run to run - the gate says "+unstable" - gets three attempts)
+        for attempt in range(3 if "+unstable" in m.group(3) else 1):
+            r2 = subprocess.run(launcher(variant) + [exe, "replay", path], stdout=subprocess.PIPE, stderr=subprocess.STDOUT, env=env, timeout=600)
+            t2 = r2.stdout.decode(errors="replace")
+            if f"key={gkey}" in t2:
+                break
         if f"key={gkey}" not in t2:
             return ("nondeterministic", gkey, path, "fresh-process replay did not reproduce: " + t2[-300:])
+        if "+unstable" in m.group(3):
+            detail += " [the trace of this violation differs between runs of the same plan]"
         return ("ok", gkey, path, detail)
     if r.returncode == 3:
         return ("no-repro", key, None, txt[-300:])
@@ -480,9 +504,18 @@ def check(prop, tier):
             continue
         # cheap pre-classification to avoid gating the same crash site many times
         pre = None
+        if os.environ.get("VERIF_TIMING"):
+            sys.stderr.write(f"[timing] death {variant} case {idx} alt {alt} rc={rc} tail={tail[-160:]!r}\n")
         m = re.search(r"CRASH sig=(\d+) fn=(\S+)", tail)
         if m:
-            pre = f"{prop}/crash/sig{m.group(1)}/{m.group(2)}"
+            fn = m.group(2)
+            if fn.startswith("_Z"):   # the crash handler prints the mangled name (it must not allocate)
+                try:
+                    fn = subprocess.run(["c++filt", fn], stdout=subprocess.PIPE, timeout=10).stdout.decode().strip() or fn
+                except Exception:
+                    pass
+                fn = fn.split("(")[0].split("[")[0]
+            pre = f"{prop}/crash/sig{m.group(1)}/{fn}"
         m = re.search(r"ERROR: AddressSanitizer: ([\w-]+)", tail)
         if m and m.group(1) in ("requested", "allocation-size-too-big", "out-of-memory", "calloc-overflow"):
             pre = None  # classified by the gate as a heap-budget violation
@@ -502,7 +535,7 @@ def check(prop, tier):
             continue
         gates_done += 1
         kk0 = key_matches(pre, known) if pre else None
-        st, gkey, path, detail = gate(exes[variant], prop, tier, seed, idx, alt, pre, shrink=(kk0 is None and len(reported) < 3))
+        st, gkey, path, detail = gate(exes[variant], prop, tier, seed, idx, alt, pre, shrink=(kk0 is None and len(reported) < 3), variant=variant)
         if rc == "watchdog" and (st == "no-repro" or (st == "nondeterministic" and "timeout" in str(detail))):
             notes.append(f"NOTE watchdog hit on case {idx} did not reproduce on replay (slow under load, not a violation)")
             continue
@@ -663,21 +696,47 @@ def check_c19(tier, only=None):
         t_built = time.time()
         if len(drivers) == 6 and not problems:
             per = max(1, NCPU // 6)
-            runs = []
-            for i, name, drv in drivers:
-                for w in range(per):
-                    idx = [only] if only is not None else list(range(w, n, per))
-                    if only is not None and w > 0:
-                        continue
-                    root = os.path.join(scratch, f"run{i}_{w}")
-                    os.makedirs(root)
-                    runs.append((i, name, subprocess.Popen([drv, "worker", "--prop", "C19", "--tier", tier, "--seed", str(seed), "--only", ",".join(map(str, idx)),
-                                                            "--root", root, "--steps"], stdout=subprocess.PIPE, stderr=subprocess.STDOUT)))
-            for i, name, p in runs:
-                out, _ = p.communicate()
-                if p.returncode != 0:
-                    problems.append(f"driver {name} exited {p.returncode}: {out.decode(errors='replace')[-300:]}")
-                for line in out.decode(errors="replace").splitlines():
+            # one thread per (build, slice); a driver that dies in a case is restarted behind it, and the death is that
+            # build's result for the case (a crash in some builds only is a divergence; in all six it is C13's business)
+            import concurrent.futures
+
+            def run_slice(i, name, drv, idx, root):
+                lines, pending, local_problems = [], list(idx), []
+                while pending:
+                    pr = subprocess.run([drv, "worker", "--prop", "C19", "--tier", tier, "--seed", str(seed), "--only", ",".join(map(str, pending)),
+                                         "--root", root, "--steps"], stdout=subprocess.PIPE, stderr=subprocess.STDOUT)
+                    out = pr.stdout.decode(errors="replace").splitlines()
+                    lines += out
+                    if pr.returncode == 0:
+                        break
+                    cur = None
+                    for l in out:
+                        if l.startswith("BEGIN "):
+                            cur = int(l[6:])
+                        elif l.startswith("RES "):
+                            cur = None
+                    if cur is None or cur not in pending:
+                        local_problems.append(f"driver {name} exited {pr.returncode} outside a case: {' '.join(out[-3:])[-300:]}")
+                        break
+                    m = re.search(r"CRASH sig=(\d+)", "\n".join(out[-40:]))
+                    lines.append(f"RES i={cur} th=crash:{'sig' + m.group(1) if m else 'exit' + str(pr.returncode)} img=0 nt=1")
+                    pending = pending[pending.index(cur) + 1:]
+                return i, name, lines, local_problems
+
+            jobs = []
+            with concurrent.futures.ThreadPoolExecutor(max_workers=6 * per) as ex:
+                for i, name, drv in drivers:
+                    for w in range(per):
+                        idx = [only] if only is not None else list(range(w, n, per))
+                        if only is not None and w > 0:
+                            continue
+                        root = os.path.join(scratch, f"run{i}_{w}")
+                        os.makedirs(root)
+                        jobs.append(ex.submit(run_slice, i, name, drv, idx, root))
+            for j in jobs:
+                i, name, lines, lp = j.result()
+                problems += lp
+                for line in lines:
                     if line.startswith("RES "):
                         d = dict(kv.split("=", 1) for kv in line[4:].split() if "=" in kv)
                         res.setdefault(int(d["i"]), {})[name] = [d["th"], d["img"], d.get("nt", "0"), None]
@@ -697,6 +756,8 @@ def check_c19(tier, only=None):
                     problems.append(f"case {idx} was not executed by all six builds: {sorted(per_build)}")
                     continue
                 sigs = {name: (v[0], v[1]) for name, v in per_build.items()}
+                if len(set(sigs.values())) == 1 and str(next(iter(sigs.values()))[0]).startswith("crash:"):
+                    notes.append(f"NOTE case {idx} ends the process in all six builds alike ({next(iter(sigs.values()))[0]}): no divergence (C13's business)")
                 if len(set(sigs.values())) > 1:
                     names = sorted(per_build)
                     ref = per_build[names[0]][3] or []
@@ -708,6 +769,7 @@ def check_c19(tier, only=None):
                                 first = k if first is None else min(first, k)
                                 break
                     key = f"C19/divergence/step{first}"
+                    crashed = [nm for nm, sg in sigs.items() if str(sg[0]).startswith("crash:")]
                     groups = {}
                     for nm, sg in sigs.items():
                         groups.setdefault(sg, []).append(nm)
@@ -718,6 +780,9 @@ def check_c19(tier, only=None):
                     if first is not None and first < len(steps):
                         key = "C19/divergence/" + steps[first].split()[1]
                         detail += "; first diverging step " + str(first) + ": " + steps[first][:160]
+                    if crashed:
+                        key = "C19/divergence/process-ends-in-some-builds"
+                        detail += "; the process ends abnormally in " + ",".join(sorted(crashed)) + " (" + sigs[crashed[0]][0] + ")"
                     kk = key_matches(key, known)
                     if kk:
                         known_hit[kk] = known_hit.get(kk, 0) + 1
@@ -743,7 +808,7 @@ def check_c19(tier, only=None):
             "build_wall_s": round(locals().get("t_built", t0) - t0, 1),
             "real_vs_stub": {"ezc3d": "real, six cmake builds of the current working tree", "file layer": "REAL per-run temporary directory (shared libraries cannot be link-wrapped); no faults, the property has none",
                              "std::fstream": "real (dynamic libstdc++)", "scheduler / allocator seams": "not used"},
-            "fault_kinds_fired": {}, "known_findings_hit": known_hit, "harness_problems": problems,
+            "fault_kinds_fired": {}, "known_findings_hit": known_hit, "harness_problems": problems, "notes": notes[:20],
             "seeds": {"VERIF_SEED": seed, "indices": f"0..{max(list(res) + [0])}"},
         },
         "assumptions": ["trace digests (per-step snapshot hashes with floats as bit patterns, exception class names, print() text, saved file images) capture every value the API returns",
